@@ -862,6 +862,54 @@ def gen_chain(r):
                 auto=False, split=n, scripts=[[] for _ in range(4)], hist=hist)
 
 
+def small_scope(pid, max_len):
+    """Bounded-exhaustive companion of the random generator (thorough tier): EVERY history up to max_len operations over a small
+    alphabet, on a handful of small machines, with quiet bodies and with one scripted in-state action."""
+    import itertools
+
+    def st(kind="state", must=False, dur=None, nxt=None):
+        return dict(kind=kind, must=must, timed=dur is not None, dur=dur, next=nxt, params=["tm", "state_tm", "initial_call"])
+    shapes = [
+        (1, 0, None, {0: st()}),
+        (2, 0, None, {0: st("timed", dur=2, nxt=1), 1: st()}),
+        (2, 0, 1, {0: st(), 1: dict(kind="default", must=True, timed=False, dur=None, next=None, params=["tm", "state_tm", "initial_call"])}),
+        (1, 0, None, {0: st("timed", dur=1)}),
+        (2, 0, None, {0: st("timed", must=True, dur=2, nxt=1), 1: st()}),
+        (3, 0, 2, {0: st("timed", dur=1, nxt=1), 1: st("timed", dur=2), 2: dict(kind="default", must=True, timed=False, dur=None,
+                                                                           next=None, params=["tm", "state_tm", "initial_call"])}),
+    ]
+    auto = pid == "C13"
+    alphabet = ["E", "X1", "X3", "D"] if not auto else ["AE", "A1", "A3", "AD"]
+    script_sets = [[], [[], [["next", 0]]], [[["done"]]], [[], [["now", 0, 1]]]]
+    for n, first, default, states in shapes:
+        for scripts in script_sets:
+            if any(a[0] in ("next", "now") and a[1] >= n for acts in scripts for a in acts):
+                continue
+            for L in range(1, max_len + 1):
+                for word in itertools.product(alphabet, repeat=L):
+                    if auto and word[0] != "AE":
+                        continue        # the selector calls on_enable() first (on_iteration() before it raises AttributeError: no latch yet)
+                    t = 0
+                    hist = []
+                    for w in word:
+                        if w == "E":
+                            hist.append(["engage", None, False])
+                        elif w == "D":
+                            hist.append(["done"])
+                        elif w in ("X1", "X3"):
+                            t += int(w[1])
+                            hist.append(["execute", t])
+                        elif w == "AE":
+                            hist.append(["aenable"])
+                        elif w == "AD":
+                            hist.append(["adisable"])
+                        else:
+                            t += int(w[1])
+                            hist.append(["aiter", t])
+                    yield dict(n=n, first=first, default=default, states={str(k): dict(v) for k, v in states.items()}, auto=auto,
+                               split=n, scripts=[list(a) for a in scripts] + [[] for _ in range(3)], hist=hist)
+
+
 def nontrivial(obs):
     called = set()
     dones = 0
@@ -934,6 +982,12 @@ def sm_check(ctx, pid):
             if f.endswith(".json"):
                 corpus_cases.append(json.load(open(os.path.join(cdir, f)))["case"])
     gen = corpus_cases + [gen_for(pid, r) for _ in range(n)]
+    if ctx.tier == "thorough":
+        ss = list(small_scope(pid, 6))
+        ctx.coverage["small_scope_exhaustive"] = {
+            "cases": len(ss), "what": "every history of length <= 6 over {engage, execute(+1 tick), execute(+3 ticks), done} (C13: on_enable, "
+            "on_iteration(+1), on_iteration(+3), on_disable) on 6 small machines x 4 in-state scripts"}
+        gen += ss
     impl_fail = []
     seen = set()
     ntriv = 0
